@@ -1,35 +1,59 @@
 (* C10 — stream management: sent stanzas are held until acknowledged and
    retransmitted in order.  Model: Model/Ack.v (Client.Send/SendRaw + SendMissingStz
-   over the queue of Model/Queue.v).  Specification: absolute numbering of the stanzas
-   sent on the session, [sp_acked] of them delivered. *)
+   over the queue of Model/Queue.v, and the flag Config.StreamManagementEnable they consult).
+   Specification (Model/Ack.v, sp_step; read it: it is the property's text as a function):
+   absolute numbering of the stanzas sent on the session, [sp_acked] of them delivered;
+     sp_ack s h:  acked := max acked (min h |sent|);  held := sent beyond acked;
+                  wire  := held, in order, then <r/>  (nothing when nothing is held). *)
 From Coq Require Import List ZArith NArith Bool.
-From XV Require Import Lib.Sx Model.Queue Model.Ack Proofs.QueueP Proofs.AckP.
+From XV Require Import Lib.Sx Model.Queue Model.Ack Model.Send Model.AckLock Proofs.QueueP Proofs.AckP Proofs.SendP Proofs.AckSchedP Proofs.AckLockP.
 Import ListNotations.
 Open Scope Z_scope.
 
-(* For every history of Send (stanza / ack request / ack answer), SendRaw and server
-   acknowledgements with ANY h (negative, stale, repeated, beyond what was sent): after
-   every step the bytes put on the wire by that step and the payloads still held are
-   those of the specification:
+(* For every history of Send (stanza / ack request / ack answer), SendRaw, sends the transport refuses,
+   server acknowledgements with ANY h (negative, stale, repeated, beyond what was sent), acknowledgements
+   whose retransmission is cut short by a refused write, and new sessions (<enabled/> granting
+   resumption or not: the specification does not look at it): after every step the bytes put on the wire by that step and the payloads
+   still held are those of the specification:
      - a stanza stays held until an <a/> covers its absolute number;
      - <a h/> discards exactly the stanzas numbered <= h (never un-delivers);
-     - if anything remains held it is written again, in order, followed by <r/>. *)
+     - if anything remains held it is written again, in order, followed by <r/>
+       (up to the first write that is refused: what was not written stays held all the same). *)
 Theorem C10_refines_spec : forall ops,
-  map (fun wq => (fst wq, map snd (snd wq))) (a_run q_init ops) = sp_run sp_init ops.
-Proof. intros ops. apply run_refines. apply init_R. Qed.
+  map (fun wq => (fst wq, map snd (snd wq))) (a_run a_init ops) = sp_run sp_init ops.
+Proof. intros ops. apply AckP.run_refines. apply init_RA. Qed.
 
-(* the specification step for an acknowledgement, spelled out *)
-Theorem C10_spec_ack : forall s h,
-  let a := Nat.max (sp_acked s) (Nat.min (Z.to_nat h) (length (sp_sent s))) in
-  let s' := fst (sp_step s (AAck h)) in
-  sp_sent s' = sp_sent s /\ sp_acked s' = a /\
-  sp_held s' = skipn a (sp_sent s) /\
-  snd (sp_step s (AAck h)) =
-    match skipn a (sp_sent s) with [] => [] | held => map WData held ++ [WRequest] end.
-Proof.
-  intros s h. cbn [sp_step]. unfold sp_held. cbn [sp_sent sp_acked].
-  destruct (skipn _ (sp_sent s)) eqn:E; cbn [fst snd sp_sent sp_acked]; rewrite ?E; auto.
-Qed.
+(* "remains held until the server acknowledges it", on the model itself: a stanza sent at ANY point of ANY
+   history (whatever the server granted before) gets the next number n; after ANY continuation on the same session it is queued under n iff no
+   acknowledgement since carried h >= n, and nothing else is ever queued under n. *)
+Theorem C10_held_iff_unacked : forall pre o d post,
+  first_tx o = [d] -> same_session post ->
+  let n := snd (fst (a_exec a_init pre)) + 1 in
+  let st := a_exec a_init (pre ++ o :: post) in
+  (In (n, d) (fst (fst st)) <->
+   Forall (fun o' => match ack_h o' with Some h => h < n | None => True end) post) /\
+  (forall d', In (n, d') (fst (fst st)) -> d' = d).
+Proof. exact held_iff_unacked. Qed.
+
+(* queue ids are the absolute numbers, in EVERY reachable state (after acknowledgements, refused sends -
+   whose number is used again - cut-short retransmissions, new sessions): the held entries are the
+   specification's held stanzas numbered acked+1, acked+2, ..., lastId is the number of stanzas sent on
+   the session, and the flag is the specification's. *)
+Theorem C10_numbering_reachable : forall ops,
+  let st := a_exec a_init ops in let s := sp_exec sp_init ops in
+  fst (fst st) = numbered (Z.of_nat (sp_acked s) + 1) (sp_held s) /\
+  snd (fst st) = Z.of_nat (length (sp_sent s)) /\
+  snd st = sp_on s /\ (sp_acked s <= length (sp_sent s))%nat.
+Proof. exact numbering_reachable. Qed.
+
+(* the order of the sequence numbers is the order of the first transmissions on the wire (the order in
+   which the server counts): on one session, lastId is the number of stanzas written for the first time
+   and the entry queued under i is the i-th of them *)
+Theorem C10_wire_order_is_numbering : forall ops, same_session ops ->
+  let st := a_exec a_init ops in
+  snd (fst st) = Z.of_nat (length (flat_map first_tx ops)) /\
+  forall i d, In (i, d) (fst (fst st)) -> 1 <= i /\ nth_error (flat_map first_tx ops) (Z.to_nat (i - 1)) = Some d.
+Proof. exact wire_order_is_numbering. Qed.
 
 (* acknowledgement requests and answers are never held or counted: through Send (by value or
    by pointer: both are the same kind of packet) and through SendRaw (a raw <r/> or <a/>) *)
@@ -38,25 +62,71 @@ Theorem C10_acks_not_held : forall st k d, k <> KStanza ->
 Proof. exact acks_not_held. Qed.
 
 (* a stanza that Send or SendRaw refuses (the write fails, the caller gets the error) was not sent
-   on the session: after any history it is neither held nor numbered, and nothing reaches the wire *)
+   on the session: after any history it is neither held nor numbered, and nothing reaches the wire
+   (that the transport took no byte of it is the model's reading of a refused write) *)
 Theorem C10_refused_not_held : forall ops k d,
-  a_step (a_exec q_init ops) (ARefused k d) = (a_exec q_init ops, []).
+  a_step (a_exec a_init ops) (ARefused k d) = (a_exec a_init ops, []).
 Proof. exact refused_not_held. Qed.
 
-(* queue ids are the absolute numbers: in every state reachable from the initial
-   queue the held entries are numbered acked+1, acked+2, ... *)
-Theorem C10_absolute_numbering : forall l,
-  let st := fold_left q_push l q_init in
-  map snd (fst st) = l /\ consec 0 (fst st) /\ snd st = Z.of_nat (length l).
-Proof.
-  intros l. pose proof (pushes_R l q_init sp_init init_R) as H. cbn zeta.
-  split; [exact (R_held _ _ H)|]. split; [exact (R_consec _ _ H)|exact (R_last _ _ H)].
-Qed.
+(* "With stream management active": what the server says about RESUMPTION in its <enabled/> makes no
+   difference to what is held - the history with every <enabled/> granting resumption gives the same wire
+   and the same queue at every step - and a client configured with stream management holds throughout
+   (before fix C10-a1 an <enabled/> without resume='true' switched holding off for good: check signature
+   held-unresumable-...). *)
+Theorem C10_unresumable_still_held : forall ops,
+  a_run a_init ops = a_run a_init (map grant_resume ops) /\ snd (a_exec a_init ops) = true.
+Proof. intros ops. split; [apply resume_irrelevant|apply always_holding]. Qed.
+
+(* Concurrent senders.  Goroutines run operations of the model (senders: Send / SendRaw; the goroutines on
+   which the receive loop routes each <a/>: acknowledgements); an operation is one step of the
+   interleaving semantics of Model/Send.v because Client.sendMu is held around it (C10_lock_makes_atomic
+   below derives that from the instructions and the lock).  For
+   EVERY schedule the order w in which the operations ran is a merge of the goroutines' programmes, the
+   model along w is the specification along w, and sequence numbers follow the wire. *)
+Theorem C10_any_schedule : forall (threads : list (list aop)) rem w,
+  creach (threads, []) (rem, w) -> all_done rem ->
+  interleavings threads w /\
+  map (fun wq => (fst wq, map snd (snd wq))) (a_run a_init w) = sp_run sp_init w /\
+  (same_session w ->
+   forall i d, In (i, d) (fst (fst (a_exec a_init w))) ->
+     1 <= i /\ nth_error (flat_map first_tx w) (Z.to_nat (i - 1)) = Some d).
+Proof. exact any_schedule. Qed.
+
+Theorem C10_every_order_scheduled : forall (threads : list (list aop)) w,
+  interleavings threads w -> exists rem, creach (threads, []) (rem, w) /\ all_done rem.
+Proof. exact every_order_scheduled. Qed.
+
+(* ... at the level of the instructions the goroutines really interleave (Model/AckLock.v: Lock, Push, the
+   write, DropLast, the body of SendMissingStz and each of its writes, Unlock; the mutex is part of the
+   state; one step = one instruction of one goroutine).  Any number of goroutines, any operation lists on a
+   session that holds, EVERY schedule: when all have finished, the queue and the whole wire are those of
+   Model/Ack.v along a merge w of the operation lists (so C10_refines_spec speaks about this execution), the
+   lock is free, and the entry queued under i is the i-th stanza written for the first time.
+   What stays assumed: that the Go code's critical sections are these programmes (read off client.go /
+   router.go; the harness stalls a sender inside its section), sync.Mutex, and that the flag and the session
+   object do not change meanwhile (a new session is not an operation here). *)
+Theorem C10_lock_makes_atomic : forall threads progs q wire lock,
+  no_enabled_ops threads ->
+  greach (g_init (map (flat_map prog) threads)) (progs, q, wire, lock) -> Forall (fun p => p = []) progs ->
+  exists w, interleavings threads w /\ a_exec a_init w = (q, true) /\ wire = wire_of w /\ lock = None /\
+    forall i d, In (i, d) (fst q) -> 1 <= i /\ nth_error (flat_map first_tx w) (Z.to_nat (i - 1)) = Some d.
+Proof. exact lock_makes_atomic. Qed.
+
+(* the same programmes without Lock/Unlock: a schedule of two senders after which the stanza queued as number 1
+   is the second on the wire (the check-then-act window the lock closes; harness: the stalled first sender) *)
+Theorem C10_without_lock_misnumbered :
+  let threads := [[ASend KStanza [1%N]]; [ASendRaw KStanza [2%N]]] in
+  exists q wire,
+    greach (g_init (map (fun ops => unlocked (flat_map prog ops)) threads)) ([[]; []], q, wire, None) /\
+    fst q = [(1, [1%N]); (2, [2%N])] /\ wire = [WData [2%N]; WData [1%N]].
+Proof. exact without_lock_misnumbered. Qed.
 
 Example C10_example :
-  a_run q_init [ASendRaw KStanza [1%N]; ASend KStanza [2%N]; ASend KRequest []; ASendRaw KStanza [3%N];
+  a_run a_init [ASendRaw KStanza [1%N]; ASend KStanza [2%N]; ASend KRequest []; ASendRaw KStanza [3%N];
                 AAck 2; ASend KAnswer [9%N]; AAck 1; AAck 7; ARefused KStanza [5%N]; ASendRaw KRequest [];
-                ASendRaw KStanza [4%N]; AAck 3; AAck (2 ^ 63)]
+                ASendRaw KStanza [4%N]; AAck 3; ASend KStanza [6%N]; AAckRefused 3 1; AAckRefused 4 1; AAck (2 ^ 63);
+                AEnabled true; ASend KStanza [7%N]; AEnabled false; ASend KStanza [8%N]; AAck 0; AEnabled true;
+                ASendRaw KStanza [8%N]]
   = [([WData [1%N]], [(1, [1%N])]);
      ([WData [2%N]], [(1, [1%N]); (2, [2%N])]);
      ([WRequest], [(1, [1%N]); (2, [2%N])]);
@@ -69,11 +139,70 @@ Example C10_example :
      ([WRequest], []);
      ([WData [4%N]], [(4, [4%N])]);
      ([WData [4%N]; WRequest], [(4, [4%N])]);
-     ([], [])].
+     ([WData [6%N]], [(4, [4%N]); (5, [6%N])]);
+     ([WData [4%N]], [(4, [4%N]); (5, [6%N])]);
+     ([WData [6%N]], [(5, [6%N])]);
+     ([], []);
+     ([], []);
+     ([WData [7%N]], [(1, [7%N])]);
+     ([], []);
+     ([WData [8%N]], [(1, [8%N])]);
+     ([WData [8%N]; WRequest], [(1, [8%N])]);
+     ([], []);
+     ([WData [8%N]], [(1, [8%N])])].
 Proof. reflexivity. Qed.
 
+(* the hypotheses of C10_held_iff_unacked are met, and both sides of its equivalence occur *)
+Example C10_held_example :
+  let pre := [AEnabled false; ASend KStanza [1%N]; AAck 1] in
+  snd (fst (a_exec a_init pre)) + 1 = 2 /\
+  same_session [ASend KStanza [3%N]; AAck 1; AAckRefused 0 0] /\
+  In (2, [2%N]) (fst (fst (a_exec a_init (pre ++ ASendRaw KStanza [2%N] :: [ASend KStanza [3%N]; AAck 1; AAckRefused 0 0])))) /\
+  ~ In (2, [2%N]) (fst (fst (a_exec a_init (pre ++ ASendRaw KStanza [2%N] :: [ASend KStanza [3%N]; AAck 2])))).
+Proof.
+  cbn zeta. split; [reflexivity|]. split; [repeat constructor|].
+  split; [vm_compute; left; reflexivity|]. vm_compute. intros [H|[]]. discriminate.
+Qed.
+
+(* two senders and the receive loop's routing goroutine: one schedule *)
+Example C10_schedule_example :
+  creach ([[ASend KStanza [1%N]; ASend KStanza [2%N]]; [ASendRaw KStanza [3%N]]; [AAck 1]], [])
+         ([[]; []; []], [ASend KStanza [1%N]; ASendRaw KStanza [3%N]; AAck 1; ASend KStanza [2%N]]).
+Proof.
+  eapply creach_step; [exact (cstep_write [] (ASend KStanza [1%N]) [ASend KStanza [2%N]] [[ASendRaw KStanza [3%N]]; [AAck 1]] [])|].
+  eapply creach_step; [exact (cstep_write [[ASend KStanza [2%N]]] (ASendRaw KStanza [3%N]) [] [[AAck 1]] _)|].
+  eapply creach_step; [exact (cstep_write [[ASend KStanza [2%N]]; []] (AAck 1) [] [] _)|].
+  eapply creach_step; [exact (cstep_write [] (ASend KStanza [2%N]) [] [[]; []] _)|].
+  apply creach_refl.
+Qed.
+
+(* the hypotheses of C10_lock_makes_atomic are met by an execution in which an acknowledgement waits for a sender *)
+Example C10_lock_example :
+  no_enabled_ops [[ASend KStanza [1%N]]; [AAck 0]] /\
+  greach (g_init (map (flat_map prog) [[ASend KStanza [1%N]]; [AAck 0]]))
+         ([[]; []], ([(1, [1%N])], 1), [WData [1%N]; WData [1%N]; WRequest], None).
+Proof.
+  split; [repeat constructor|]. unfold g_init. cbn [map flat_map prog app].
+  eapply greach_step; [apply (gstep_one [] MLock _ [_]); reflexivity|].
+  eapply greach_step; [apply (gstep_one [] (MPush [1%N]) _ [_]); reflexivity|].
+  eapply greach_step; [apply (gstep_one [] (MWrite (WData [1%N])) _ [_]); reflexivity|].
+  eapply greach_step; [apply (gstep_one [] MUnlock _ [_]); reflexivity|].
+  eapply greach_step; [apply (gstep_one [[]] MLock _ []); reflexivity|].
+  eapply greach_step; [apply (gstep_one [[]] (MAck 0 None) _ []); reflexivity|].
+  eapply greach_step; [apply (gstep_one [[]] (MWrite (WData [1%N])) _ []); reflexivity|].
+  eapply greach_step; [apply (gstep_one [[]] (MWrite WRequest) _ []); reflexivity|].
+  eapply greach_step; [apply (gstep_one [[]] MUnlock _ []); reflexivity|].
+  apply greach_refl.
+Qed.
+
 Print Assumptions C10_refines_spec.
-Print Assumptions C10_spec_ack.
+Print Assumptions C10_held_iff_unacked.
+Print Assumptions C10_numbering_reachable.
+Print Assumptions C10_wire_order_is_numbering.
 Print Assumptions C10_acks_not_held.
 Print Assumptions C10_refused_not_held.
-Print Assumptions C10_absolute_numbering.
+Print Assumptions C10_unresumable_still_held.
+Print Assumptions C10_any_schedule.
+Print Assumptions C10_every_order_scheduled.
+Print Assumptions C10_lock_makes_atomic.
+Print Assumptions C10_without_lock_misnumbered.
